@@ -211,7 +211,7 @@ def check(ctx: Ctx):
     render.check_arity(ctx)
     check_grid_dispatch(ctx)
     check_threshold_dispatch(ctx)
-    refine.check_pack(ctx, rules=("PACK", "FEASIBLE"))
+    refine.check_pack(ctx, rules=("PACK", "FEASIBLE", "STRICT"))
     check_signal(ctx)
     check_otsu_total(ctx)
     from . import c07
